@@ -61,6 +61,18 @@ def snap_term(occ):
         opt_lz(occ["active_cell"]), opt_lz(occ["active_id"]))
 
 
+def relevant_ids(tr, si):
+    """The relevant cell-level units of occupancy si, determined independently of the implementation's filter where
+    the tracer could read the filter charge (units whose configured charge is non-zero); None if unknown."""
+    ist = tr["meta"]["internal_states"][si]
+    if not ist.get("charge_known"):
+        return None
+    cname = ist.get("charge_name")
+    level = ist["cell_level"]
+    return [u["id"] for u in tr["init_state"] if len(u["id"]) == level and
+            (cname is None or ((u.get("charge") or {}).get(cname, 0) & 0x7FFFFFFFFFFFFFFF) != 0)]
+
+
 def encode_ocase_n(tr, max_legs, si):
     """Model/OccupancyRun.v ocase of internal state number si of one trace, and the indices of the legs it contains
     (None if there is no such occupancy)."""
@@ -74,7 +86,8 @@ def encode_ocase_n(tr, max_legs, si):
     level = ist["cell_level"]
     st = TC.State(tr)
     occ0 = legs[0]["occ"][si]
-    rel0 = [tuple(i) for i in occ0["relevant"]]
+    indep = relevant_ids(tr, si)
+    rel0 = [tuple(i) for i in (indep if indep is not None else occ0["relevant"])]
     cell_units = [u for u in tr["init_state"] if len(u["id"]) == level]
     init = "[" + "; ".join("(%s, %s, %s)" % (lz(u["id"]), lz(u["pos"]), C.coq_bool(tuple(u["id"]) in rel0))
                            for u in cell_units) + "]"
@@ -94,9 +107,10 @@ def encode_ocase_n(tr, max_legs, si):
         a = act[0]
         prev = legs[n - 1]
         pb = prev.get("pick") is not None and TC.handler_kind(meta, prev["pick"]) == "cell_boundary"
-        units = "[" + "; ".join("(%s, %s)" % (lz(i), lz(st.units[tuple(i)]["pos"])) for i in occ["relevant"]) + "]"
+        rel = indep if indep is not None else occ["relevant"]
+        units = "[" + "; ".join("(%s, %s)" % (lz(i), lz(st.units[tuple(i)]["pos"])) for i in rel) + "]"
         terms.append("(mkOLeg %s %s %s %s %s %s)" % (
-            C.coq_bool(pb), lz(a["id"]), lz(a["pos"]), C.coq_bool(list(a["id"]) in occ["relevant"]), units,
+            C.coq_bool(pb), lz(a["id"]), lz(a["pos"]), C.coq_bool(list(a["id"]) in rel), units,
             snap_term(occ)))
         used.append(n)
         if leg.get("delta") is None:
